@@ -556,9 +556,25 @@ func makeInd(e *IndEntity, cfg []int, scale int) *IndInstance {
 		scaleConfig(reflect.ValueOf(inst), scale)
 	}
 	ii := &IndInstance{E: e, Inst: inst}
+	if askTwin {
+		// the declared warm-up is read from a twin of the same configuration, so that the instance
+		// that computes has had none of its methods called (a getter that initialises, caches or
+		// normalises something would otherwise always have run before the first Compute)
+		twin := e.Make(c)
+		if scale > 1 && !e.NoScale && len(cfg) == 0 {
+			scaleConfig(reflect.ValueOf(twin), scale)
+		}
+		t := &IndInstance{E: e, Inst: twin}
+		t.declareIdle()
+		ii.Idle = t.Idle
+		return ii
+	}
 	ii.declareIdle()
 	return ii
 }
+
+// askTwin: see makeInd. C09 switches it off for half of its cases (then the instance itself is asked).
+var askTwin = true
 
 // skipIdleDecl: C09 hands half of its instances to the pipelines without having called any of
 // their methods first (a getter that initialises or normalises something on first use would
